@@ -263,16 +263,19 @@ Definition target (s : shape) : option string :=
 Inductive group_change (e : env) (g : string) : list (string * description) -> Prop :=
 | gc_same : group_change e g (e_groups e)
 | gc_delete : group_change e g (assoc_del (e_groups e) (clean_name g))
-| gc_create : forall nb d', file_lookup e g = None -> update_description None nb = Some d' ->
+| gc_create : forall nb d', e_writable e = true -> e_store_ok e = true ->
+    file_lookup e g = None -> update_description None nb = Some d' ->
     group_change e g (assoc_set (e_groups e) (clean_name g) d')
-| gc_update : forall d x d', file_lookup e g = Some d -> apply_upd d x = Some d' ->
+| gc_update : forall d x d', e_writable e = true -> e_store_ok e = true ->
+    file_lookup e g = Some d -> apply_upd d x = Some d' ->
     group_change e g (assoc_set (e_groups e) (clean_name g) d').
 
 Section WithHash.
 Variable H : string -> string -> string.
 
 Lemma rewrite_file_change : forall e g d' r,
-  group_change e g (assoc_set (e_groups e) (clean_name g) d') ->
+  (e_writable e = true -> e_store_ok e = true ->
+   group_change e g (assoc_set (e_groups e) (clean_name g) d')) ->
   e_conf (fst (rewrite_file e g d' r)) = e_conf e /\
   e_writable (fst (rewrite_file e g d' r)) = e_writable e /\
   group_change e g (e_groups (fst (rewrite_file e g d' r))).
@@ -301,7 +304,7 @@ Proof.
   intros. unfold do_set_password.
   destruct (file_lookup e g) as [d|] eqn:Ef; [|same].
   destruct (set_password d u w pw) as [d'|] eqn:Es; [|same].
-  apply rewrite_file_change. eapply gc_update with (x := UPassword u w pw); eauto.
+  apply rewrite_file_change. intros Hwr Hst. eapply gc_update with (x := UPassword u w pw); eauto.
 Qed.
 
 Lemma dispatch_step : forall e s m c b,
@@ -325,7 +328,7 @@ Proof.
     { destruct (json_body b) as [r|p]; [same|].
       destruct p; try same.
       destruct (update_description (file_lookup e g) b0) as [d|] eqn:Eu; [|same].
-      apply rewrite_file_change.
+      apply rewrite_file_change. intros Hwr Hst.
       destruct (file_lookup e g) as [o|] eqn:Ef.
       - eapply gc_update with (x := UDesc b0); eauto.
       - eapply gc_create; eauto. }
@@ -343,12 +346,12 @@ Proof.
       destruct (negb (password_is_empty (u_password u0))); [same|].
       destruct (file_lookup e g) as [d|] eqn:Ef; [|same].
       destruct (update_user d u wild u0) as [d'|] eqn:Eu; [|same].
-      apply rewrite_file_change. eapply gc_update with (x := UUser u wild u0); eauto. }
+      apply rewrite_file_change. intros Hwr Hst. eapply gc_update with (x := UUser u wild u0); eauto. }
     destruct (String.eqb m "DELETE"); [|same].
     destruct (get_sanitised_user e g u wild); [|same].
     destruct (file_lookup e g) as [d|] eqn:Ef; [|same].
     destruct (delete_user d u wild) as [d'|] eqn:Eu; [|same].
-    apply rewrite_file_change. eapply gc_update with (x := UDelUser u wild); eauto.
+    apply rewrite_file_change. intros Hwr Hst. eapply gc_update with (x := UDelUser u wild); eauto.
   - (* SPassword *)
     unfold password_handler.
     destruct (api_cors m); [same|].
@@ -368,14 +371,39 @@ Proof.
       destruct (bi_payload b); try same.
       destruct (negb valid); [same|].
       destruct (file_lookup e g) as [d|] eqn:Ef; [|same].
-      apply rewrite_file_change.
+      apply rewrite_file_change. intros Hwr Hst.
       eapply gc_update with (x := UKeys (match ks with Some l => l | None => [] end)); eauto. }
     destruct (String.eqb m "DELETE"); [|same].
     destruct (file_lookup e g) as [d|] eqn:Ef; [|same].
-    apply rewrite_file_change. eapply gc_update with (x := UKeys []); eauto.
+    apply rewrite_file_change. intros Hwr Hst. eapply gc_update with (x := UKeys []); eauto.
   - unfold tokens_handler. split_ifs; cbn; auto.
   - unfold tokens_handler. split_ifs; cbn; auto.
   - unfold auth_not_found_handler. split_ifs; cbn; auto.
 Qed.
+
+(* the store step fails (the temporary file cannot be created, written or
+   synced, or the rename fails): no group file is altered; the only change a
+   request can still make is the deletion of the addressed group, which
+   writes nothing *)
+Lemma store_failure : forall e s m c b,
+  e_store_ok e = false ->
+  let e' := fst (dispatch H e s m c b) in
+  e_groups e' = e_groups e \/
+  exists g, target s = Some g /\ e_groups e' = assoc_del (e_groups e) (clean_name g).
+Proof.
+  intros e s m c b Hf. cbv zeta.
+  destruct (dispatch_step e s m c b) as (_ & _ & K).
+  destruct (target s) as [g|]; [|left; exact K].
+  inversion K as [E | E | nb d' Hw Hs | d x d' Hw Hs].
+  - left. reflexivity.
+  - right. exists g. split; reflexivity.
+  - congruence.
+  - congruence.
+Qed.
+
+(* and it is answered with an error *)
+Lemma rewrite_file_fails : forall e g d r,
+  e_writable e = true -> e_store_ok e = false -> rewrite_file e g d r = (e, r500).
+Proof. intros e g d r Hw Hs. unfold rewrite_file. rewrite Hw, Hs. reflexivity. Qed.
 
 End WithHash.
